@@ -7,13 +7,13 @@ import Mathlib.Tactic.NormNum
 namespace Forsys
 
 /-- rotation by the angle with cosine `a` and sine `b` (a rotation when `a² + b² = 1`) -/
-def rotP (a b : Rat) (p : Pt) : Pt := ⟨a * p.x - b * p.y, b * p.x + a * p.y⟩
-def rotV (a b : Rat) (v : Vec) : Vec := ⟨a * v.x - b * v.y, b * v.x + a * v.y⟩
+def c02_rotP (a b : Rat) (p : Pt) : Pt := ⟨a * p.x - b * p.y, b * p.x + a * p.y⟩
+def c02_rotV (a b : Rat) (v : Vec) : Vec := ⟨a * v.x - b * v.y, b * v.x + a * v.y⟩
 /-- mirror image in the x-axis -/
-def flipP (p : Pt) : Pt := ⟨p.x, -p.y⟩
-def flipV (v : Vec) : Vec := ⟨v.x, -v.y⟩
-def shiftP (t : Vec) (p : Pt) : Pt := ⟨p.x + t.x, p.y + t.y⟩
-def scaleP (k : Rat) (p : Pt) : Pt := ⟨k * p.x, k * p.y⟩
+def c02_flipP (p : Pt) : Pt := ⟨p.x, -p.y⟩
+def c02_flipV (v : Vec) : Vec := ⟨v.x, -v.y⟩
+def c02_shiftP (t : Vec) (p : Pt) : Pt := ⟨p.x + t.x, p.y + t.y⟩
+def c02_scaleP (k : Rat) (p : Pt) : Pt := ⟨k * p.x, k * p.y⟩
 
 theorem forcedSign_pos_mul (k q : Rat) (hk : 0 < k) : forcedSign (k * q) = forcedSign q := by
   rcases forcedSign_cases q with ⟨h, e⟩ | ⟨h, e⟩ <;>
